@@ -33,7 +33,7 @@ def prepare():
 def budgets(tier):
     if tier == 'quick':
         return dict(shards=16, examples=60)
-    return dict(shards=16, examples=3000, deadline_s=3000)
+    return dict(shards=16, examples=6000, deadline_s=3000)
 
 
 @st.composite
